@@ -84,6 +84,12 @@ type LoopContract struct {
 	Ghost      []GhostUpdate // at back edge
 }
 
+type CallAssert struct {
+	Callee  string
+	Ordinal int
+	C       Clause
+}
+
 type CallGhost struct {
 	Callee  string // name as printed by shortCallee
 	Ordinal int    // 0 = every call of that callee
@@ -102,6 +108,7 @@ type FuncContract struct {
 	GhostPar   []GhostDecl // ghost parameters (universally quantified inputs)
 	Loops      map[int]*LoopContract
 	CallGhost  []CallGhost
+	CallAssert []CallAssert
 	RetGhost   []GhostUpdate
 	EntryGhost []GhostUpdate
 	Pure       bool
@@ -317,8 +324,16 @@ func parseContractFile(path, pkg string) (*ContractFile, error) {
 				cs = cs[:i]
 			}
 			k, body := splitWord(rest2)
+			if k == "assert" {
+				e, err := parseExpr(body)
+				if err != nil {
+					return nil, fail(err)
+				}
+				cur.CallAssert = append(cur.CallAssert, CallAssert{Callee: cs, Ordinal: ord, C: Clause{Text: body, E: e, Line: r.line}})
+				continue
+			}
 			if k != "ghost" {
-				return nil, fail(fmt.Errorf("expected 'ghost' after call site"))
+				return nil, fail(fmt.Errorf("expected 'ghost' or 'assert' after call site"))
 			}
 			u, err := parseGhostUpdate(body)
 			if err != nil {
